@@ -21,7 +21,7 @@ CHECKS = {
  'C10': dict(engine='MibCompile', design='6 (C10 first half)', technique='TLA+ spec MibCompile.tla + TLC; replay through real MibCompiler; TLC trace validation',
              text='FreshMeansUntouched, SearcherOrder, SearcherSeesSourceTime, NoDepsOnlyRequested, GeneratedWhenNeeded, OptionsPassed over all searcher answers (fresh/absent/error/silent) x rebuild x noDeps. Second half: Searcher.tla enumerates every directory configuration (entries absent/dir/file with times src-1/src/src+1, .pyc header variants, rebuild, stub lists); each is materialised on disk (source time stamp obtained through the real FileReader, sub-second times) and the answer of the real AnyFileSearcher/PyFileSearcher/PyPackageSearcher/StubSearcher is validated by TLC (SearcherTrace) against UpToDateExactly.', note=MC_NOTE),
  'C19': dict(engine='MibCompile', design='6 (C19 first half)', technique='TLA+ spec MibCompile.tla + TLC; replay through real MibCompiler with real AnyFileBorrower around reader doubles; TLC trace validation',
-             text='BorrowOnlyFailures, FlavourMatch, BorrowOrder, Verbatim, NeverReplaceCompiled, RequestedStayEligible over all borrower lists (flavours, ok/nf/err) x failure placements x noDeps/genTexts/ignoreErrors.', note=MC_NOTE),
+             text='BorrowOnlyFailures, FlavourMatch, BorrowOrder, Verbatim, NeverReplaceCompiled, RequestedStayEligible over all borrower lists (flavours, ok/nf/err) x failure placements x noDeps/genTexts/ignoreErrors. Second half: PyFileBorrower / AnyFileBorrower over real FileReader/ZipReader sources for every file-extension variant (ReaderLookup.tla scenarios with the borrower extension families).', note=MC_NOTE),
 
  'C18': dict(engine='OidIndex', design='6 (C18)', technique='TLA+ spec OidIndex.tla model-checked with TLC; every exported build history replayed through the real genIndex()/buildIndex(); per-call index snapshots validated by TLC (OidIndexTrace: refinement + property monitor)',
              text='Listed, Cover (component-wise prefix), OnlyDefines, Monotone (action property over consecutive builds), Idempotent as TLC invariants for all histories of index builds over an OID universe whose arcs share decimal digits; the real index after every call is compared with MergeBatch and the formulas are evaluated on it.',
@@ -30,6 +30,10 @@ CHECKS = {
  'C13': dict(engine='AtomicWrite', design='6 (C13)', technique='TLA+ spec AtomicWrite.tla (system-call steps, faults, 1-2 interleaved writers) model-checked with TLC; every exported schedule driven through the real FileWriter/PyFileWriter by os/tempfile/py_compile proxies and a deterministic thread scheduler; call+filesystem traces validated by TLC (AtomicWriteTrace)',
              text='NeverPartial in every state (= every crash point), NoTempLeft, RaisedIsWriterError, RaisedKeeps, DryRunInert as invariants and ReturnedMeansStored as action property, for both writers x every call site x {error, short write} x fresh/existing destination x one or two concurrent writers; the real putData() is executed along each schedule and the snapshot after every call is checked against the spec step and the formulas.',
              note='Trusted: TLC; the proxies/scheduler in harness/faultfs.py and the classification of file contents (old / complete new / partial). Faults are results of Python-level calls; fsync/power loss not modelled. Quick tier samples 1500 schedules per two-writer slice (seeded), single-writer slices are exhaustive.'),
+
+ 'C14': dict(engine='ReaderLookup', design='6 (C14)', technique='TLA+ spec ReaderLookup.tla (variants computed on character sequences from the documented rule) explored with TLC; every scenario materialised as a directory tree and as a (nested) ZIP and asked of the real FileReader/ZipReader; results validated by TLC (ReaderLookupTrace); UrlDispatch.tla decision table against getReadersFromUrls()',
+             text='RightFile (name is a variant, content and time stamp are that entry\'s), NotFoundExactly, NeverUnrelated, OnlyPackageErrors for request names (suffix present / absent / -MIB in the middle / mixed case) x option subsets x .index mapping x recursive flag x <=2 entries from variants and near misses at three nesting levels (sub-directories; folders and nested archives in ZIPs); all URL shapes (scheme x extension).',
+             note='Trusted: TLC, zipfile/os for building the sources, the identification of returned text with an entry. Scope: <=2 entries per source from a 20-name universe per request; quick tier samples 2500 scenarios per slice. HTTP/FTP readers are only constructed. Empty archive members are not generated (ZipReader cannot tell them from read errors).'),
 }
 PENDING = 'check under construction in this round; will be claimed when its TLA+ spec, replay and trace validation exist'
 
@@ -43,6 +47,7 @@ m = {
               'kind_free_text': 'TLA+ state machine of MibCompiler.compile() with lazy environment; MibCompileProps.tla formulas; MibCompileTrace.tla batch trace validation'},
              {'name': 'AtomicWrite', 'path': 'specs/AtomicWrite.tla', 'serves_properties': ['C13'], 'kind_free_text': 'TLA+ model of putData() as system-call steps with fault injection and two interleaved writers; AtomicWriteTrace.tla'},
              {'name': 'Searcher', 'path': 'specs/Searcher.tla', 'serves_properties': ['C10'], 'kind_free_text': 'TLA+ decision model of the file searchers over directory configurations; SearcherTrace.tla'},
+             {'name': 'ReaderLookup', 'path': 'specs/ReaderLookup.tla', 'serves_properties': ['C14', 'C19'], 'kind_free_text': 'TLA+ model of which file a local/ZIP source may return for a name; ReaderLookupTrace.tla; UrlDispatch.tla'},
              {'name': 'OidIndex', 'path': 'specs/OidIndex.tla', 'serves_properties': ['C18'], 'kind_free_text': 'TLA+ model of the persistent OID->module index and its merge/compaction; OidIndexTrace.tla'}],
  'checks': [], 'not_applicable': [],
  'notes': 'All checks: cwd=/verif, ./check <id> --tier quick|thorough; exit 0 pass, 1 violation (VIOLATION line), 2 machinery failure. known_findings.json lists open findings and fixed: records.',
